@@ -4,7 +4,7 @@
 import glob, json, os, shutil
 V = os.path.dirname(os.path.dirname(os.path.abspath(__file__)))
 NEEDS = json.load(open(os.path.join(V, "tools", "seeded_round2.json")))
-for d in sorted(glob.glob(f"{V}/scratch/seeded_in2/C??/[C-F]")):
+for d in sorted(glob.glob(f"{V}/scratch/seeded_in2/C??/[C-H]")):
     pid, var = d.split("/")[-2], d.split("/")[-1]
     mid = pid + var
     vj = os.path.join(d, "verify.json")
